@@ -18,11 +18,11 @@ META = {
     "normal end (C14_full): every job of every node not downstream of a failure was dispatched and has a result on disk, "
     "nodes downstream of a failure never got a job, the submission fails iff some job failed and its error then lists exactly "
     "the failed jobs.  Full after the D10 repair (update_status guards job.done in the running loop); C14_regression_D10 "
-    "replays the old witness in the model.  PARTIAL with respect to 'whatever the timing': the model interleaves at poll "
-    "granularity; a job that fails while get_runnable_tasks is scanning makes a successor pass the `p.errored` test on stale "
-    "tables and be started behind the failure, which aborts the workflow (known finding D34, reproduced with the load_result "
-    "gate; C14_stale_tables_witness / C14_fresh_tables_regression show the mechanism in the model).  Dependence is at node "
-    "granularity as in the scheduler.  Tied to "
+    "replays the old witness in the model.  The model interleaves at poll granularity; the repaired defect D64 (a job failing "
+    "while get_runnable_tasks is scanning made a successor pass the `p.errored` test on stale tables, be started behind the "
+    "failure and abort the workflow) is documented by C14_stale_tables_witness (old order) / C14_stale_tables_regression "
+    "(current order: every predecessor refreshed first) and replayed on the real code with the load_result gate.  Dependence is "
+    "at node granularity as in the scheduler.  Tied to "
     "pydra/engine/submitter.py and WorkflowOutputs._from_job by running workflows of 2-6 nodes with every/random fail sets "
     "under the controlled worker with schedules that force 'seen running, then fails', comparing per iteration tasks / "
     "dispatches / pending futures / NodeExecution tables, the executed bodies, the cached results and the jobs named by the error.",
@@ -38,7 +38,7 @@ META = {
 _NS = "PydraModel.Sched."
 OBLIGATIONS = [
     _NS + n
-    for n in ("C14_dependents_never_run", "C14_full", "C14_regression_D10", "C14_stale_tables_witness", "C14_fresh_tables_regression")
+    for n in ("C14_dependents_never_run", "C14_full", "C14_regression_D10", "C14_stale_tables_witness", "C14_stale_tables_regression")
 ]
 LEAN_TARGETS = ["PydraModel.Props.C14"]
 MODEL_TARGETS = ["PydraModel.Sched.Model", "PydraModel.DriverUtil"]
@@ -98,37 +98,28 @@ def exhaustive_fail_sets(rng, n_graphs):
     return cases[: n_graphs * 12]
 
 
-# corpus/sched/C14.jsonl: first line = witness of the known finding D34 (a job fails *during* a poll), then the witness of
-# the repaired finding D10 and hand-made schedules
-_C = sched.load_corpus("C14")
-D34_WITNESS, CORPUS = _C[0], _C[1:]
-
-
-def d34(case, obs):
-    """match rule of D34: the ground truth of a predecessor's job changed to `failed` between two status reads of one poll"""
-    if case.get("race") and (obs.get("race") or {}).get("forced"):
-        return "D34"
-    return None
+# corpus/sched/C14.jsonl: witnesses of the repaired findings D64 (a job fails *during* a poll; two variants, forced with the
+# load_result gate of pydra/utils/verif_hooks.py) and D10, then hand-made schedules.  All must pass.
+CORPUS = sched.load_corpus("C14")
 
 
 def correspondence(ctx):
     core.assert_repo_loaded()
-    # known-finding witness, corpus (D10 witness), then generated cases, in one batch
-    res = sched.explore(ctx, [dict(D34_WITNESS)] + [dict(c) for c in CORPUS]
+    # corpus (D64 and D10 witnesses) first, then generated cases, in one batch
+    res = sched.explore(ctx, [dict(c) for c in CORPUS]
                         + gen_cases(ctx.rng, ctx.pick(14, 100), ["failslast", "failslast", "random", "greedy", "lazy"]),
-                        spec, "C14 failure isolation", defect=d34)
-    (_, o, _, _, _) = res[0]
-    if any(f["id"] == "D34" for f in ctx.known()):
-        still = o.get("outcome") not in ("ok", "RuntimeError") or "z" not in (o.get("executed") or [])
-        ctx.finding("D34", bool((o.get("race") or {}).get("forced")) and still,
-                    f"race forced: {(o.get('race') or {}).get('forced')}; outcome {o.get('outcome')}; executed {o.get('executed')}")
+                        spec, "C14 failure isolation")
+    forced = [bool((o.get("race") or {}).get("forced")) for (c, o, _, _, _) in res if c.get("race")]
+    ctx.extra["intra_poll_races_forced"] = sum(forced)
+    if not all(forced):
+        ctx.tie_broken.append({"kind": "race-not-forced", "detail": "the load_result gate did not produce the interleaving of the D64 witness"})
     if not ctx.quick:
-        sched.explore(ctx, exhaustive_fail_sets(ctx.rng, 8), spec, "C14 all fail sets", defect=d34)
+        sched.explore(ctx, exhaustive_fail_sets(ctx.rng, 8), spec, "C14 all fail sets")
 
 
 def search(ctx):
-    sched.explore(ctx, gen_cases(ctx.rng, ctx.pick(40, 300), ["failslast", "random", "greedy", "lazy", "fifo"]), spec, "C14 search", defect=d34)
+    sched.explore(ctx, gen_cases(ctx.rng, ctx.pick(40, 300), ["failslast", "random", "greedy", "lazy", "fifo"]), spec, "C14 search")
 
 
 def replay(ctx, rec):
-    sched.explore(ctx, [rec["case"]], spec, "C14 replay", defect=d34)
+    sched.explore(ctx, [rec["case"]], spec, "C14 replay")
